@@ -34,11 +34,11 @@ func init() {
 		Run:        runC17,
 		Rule:       "one run = scripts of tokenizer operations (new, next×k, drain, reset, abandon, next-after-error) for 1..4 simulated goroutines over generated valid and structurally broken documents, plus pool policy and schedule, all from the tape; non-trivial = a tokenizer was reused after Reset, or a scope stack went through the pool to another tokenisation, or a context switch happened; distinct = distinct hash of (scripts, documents, schedule trace)",
 		FaultKinds: []string{"abandon-with-open-scopes", "reset-mid-document", "reset-after-error", "invalid-document", "stack-reused-from-pool", "next-after-error", "context-switch-between-next", "pool-policy:lifo", "pool-policy:fifo", "pool-policy:random", "pool-policy:never-reuse", "pool-policy:drop-on-put"},
-		ProbeNames: []string{"tokenisations", "valid-tokenisations-fully-checked", "tokens-checked", "invalid-tokenisations", "empty-container-inside-non-empty", "key-after-nested-object", "depth>=8", "depth>=32", "siblings>=65536", "pool-cross-task-handoff", "pool-reuse", "strings-with-escapes-checked", "numbers-checked"},
+		ProbeNames: []string{"tokenisations", "valid-tokenisations-fully-checked", "tokens-checked", "invalid-tokenisations", "empty-container-inside-non-empty", "key-after-nested-object", "depth>=8", "depth>=32", "siblings>=65536", "valid-document-with-invalid-utf8-in-a-string", "pool-cross-task-handoff", "pool-reuse", "strings-with-escapes-checked", "numbers-checked"},
 		Real:       []string{"json.Tokenizer, stack pool, scalar scanners (json/token.go, json/parse.go) compiled from /repo's working tree with sync redirected to the shim"},
 		Model:      []string{"sync.Pool (simulated: LIFO/FIFO/random/never-reuse/drop, double-put monitor)", "scheduler (token passing, choices from the tape)", "reference: token stream of encoding/json.Decoder.Token plus a ten-line scope stack for Depth/Index/IsKey; json.Compact for the concatenation"},
 		Assumptions: []string{
-			"a document is one JSON value; validity is encoding/json.Valid plus utf8.Valid (invalid UTF-8 inside strings is C02/C05's input dimension)",
+			"a document is one JSON value; validity is encoding/json.Valid (which accepts invalid UTF-8 inside strings; String() is compared with encoding/json's decoded token, U+FFFD included)",
 			"for invalid documents only termination, no panic and error stickiness are demanded (the statement does not say which invalid inputs must set Err)",
 			"Depth/Index/IsKey are checked on scalars and opening delimiters only, as the statement defines them",
 		},
@@ -320,7 +320,37 @@ func c17GenDoc(t *tape.Tape) []byte {
 	if t.Chance(1, 4) {
 		b = g.WS(b, t.Range(1, 3))
 	}
+	if t.Chance(1, 8) {
+		b = c17BadUTF8(t, b)
+	}
 	return b
+}
+
+// c17BadUTF8 puts invalid UTF-8 (a stray 0xff, a truncated sequence, an encoded
+// surrogate half, an overlong form) inside a string of the document, which
+// stays valid JSON for encoding/json: the decoded string has U+FFFD there.
+func c17BadUTF8(t *tape.Tape, doc []byte) []byte {
+	var quotes []int
+	in := false
+	for i := 0; i < len(doc); i++ {
+		switch {
+		case in && doc[i] == '\\':
+			i++
+		case doc[i] == '"':
+			if !in {
+				quotes = append(quotes, i)
+			}
+			in = !in
+		}
+	}
+	if len(quotes) == 0 {
+		return doc
+	}
+	at := quotes[t.Intn(len(quotes))] + 1
+	bad := [][]byte{{0xff}, {0xc3}, {0xe2, 0x82}, {0xed, 0xa0, 0x80}, {0xc0, 0xaf}, {0xf4, 0x90, 0x80, 0x80}, {0x80}}[t.Intn(7)]
+	out := append([]byte(nil), doc[:at]...)
+	out = append(out, bad...)
+	return append(out, doc[at:]...)
 }
 
 func c17Break(t *tape.Tape, doc []byte) []byte {
@@ -484,7 +514,10 @@ func runC17(r *core.Run) {
 			r.SigAdd(st.Op)
 			if st.Op == "new" || st.Op == "reset" {
 				d := &c17Doc{doc: st.Doc}
-				d.valid = stdjson.Valid(st.Doc) && utf8.Valid(st.Doc)
+				d.valid = stdjson.Valid(st.Doc)
+				if d.valid && !utf8.Valid(st.Doc) {
+					r.Probe("valid-document-with-invalid-utf8-in-a-string")
+				}
 				if d.valid {
 					d.model, d.maxDep = c17Model(st.Doc)
 					if d.maxDep >= 8 {
